@@ -4,7 +4,7 @@ From Coq Require Import Arith Lia.
 From YV Require Import C06.C06Base C06.C06Dispatch C06.C06Kinds Gen.C06Layers Gen.C06HandleMaps.
 
 Definition reply_feat (x t : ostr) (i : string) (fr to p : ostr) (ch : list (string * ostr)) : feat :=
-  mkFeat "iq" x t (Some i) fr to p [] ch false None false false false false.
+  mkFeat "iq" x t (Some i) fr to p [] ch false None false false false false false.
 
 (* a reply is not itself a server ping; only the reply to a contact sync (registered by LContacts) carries <sync/> *)
 Definition plain_reply (l : lid) (x : ostr) (ch : list (string * ostr)) : Prop :=
